@@ -32,12 +32,20 @@ def jobs(tier):
             j.functions = ["_vnacal_new_solve_simple (determinant test of the exactly determined route)"]
             j.bound = "UE14 2x2, two exactly determined systems; the kernel's determinant symbolic (zero, NaN or any normal number)"
             J.append(j)
+        if j.name == "simple_weight_index_overdetermined.UE14":
+            j.name = "solve_simple_rank_deficient.UE14"
+            j.defines = j.defines + ["-DRANK_SYMBOLIC"]
+            j.canary = False
+            j.imported = True
+            j.functions = ["_vnacal_new_solve_simple (rank test of the over-determined route)"]
+            j.bound = "UE14 2x2, two over-determined systems; the rank reported by the QR kernel symbolic (0..unknowns)"
+            J.append(j)
     return J
 
 
 ASSUME = [
     "double complex compiled as double (shim): magnitudes are |x| of real values",
-    "NOT covered: backward stability / residual size, QR orthogonality and least-squares minimality, n > 2, 'astronomically large output' of the n-port conversions, that every call site tests the determinant: decided for the a/b reduction of vnacal_new_add_* (ab_reduction, kernel by assumed contract with any determinant) and for vnacal_apply_m (C01 apply_frame); solve_simple's LU route (solve_simple_singular); its QR route (rank < unknowns) and solve_auto by reading only",
+    "NOT covered: backward stability / residual size, QR orthogonality and least-squares minimality, n > 2, 'astronomically large output' of the n-port conversions, that every call site tests the determinant: decided for the a/b reduction of vnacal_new_add_* (ab_reduction, kernel by assumed contract with any determinant) and for vnacal_apply_m (C01 apply_frame); solve_simple's LU route (solve_simple_singular) and QR route (solve_simple_rank_deficient); solve_auto by reading only",
 ]
 TRUSTED = ["CBMC 6.11 IEEE-754 encoding", "CBMC models of ldexp / isnormal"]
 
